@@ -38,7 +38,8 @@ Section Check.
   | ELocal (r : nat) (c : call) (o : obs) (view : val) (size : Z)
   | ETx (r : nat) (tag : str) (cs : list call) (fail : bool) (os : list obs) (view : val) (size : Z)
   | EPush (r : nat) (ops : list op)
-  | EDeliver (r : nat) (n : nat) (ok : bool) (view : val) (size : Z).
+  | EDeliver (r : nat) (n : nat) (ok : bool) (view : val) (size : Z)
+  | ERecv (r : nat) (ops : list op) (ok : bool) (view : val) (size : Z).   (* a raw batch, cursor untouched *)
 
   Notation sysT := (@sys St call J).
 
@@ -78,6 +79,16 @@ Section Check.
         | Some (s', RError _ _ _ d') => if negb ok && state_ok d' view size then Some s' else None
         | _ => None
         end
+    | ERecv r ops ok view size =>
+        match get_rep St call J s r with
+        | Some x =>
+            match receive_ops St call J k_remote (r_dt x) ops with
+            | ROk _ _ _ d' => if ok && state_ok d' view size then Some (set_rep St call J s r (mkRep d' (r_cur x))) else None
+            | RError _ _ _ d' => if negb ok && state_ok d' view size then Some (set_rep St call J s r (mkRep d' (r_cur x))) else None
+            | _ => None
+            end
+        | None => None
+        end
     end.
 
   Fixpoint run (s : sysT) (es : list ev) (i : nat) : option nat :=
@@ -116,6 +127,17 @@ Section Check.
         | Some (_, RDiverge _ _ _) => DDeliver 3 (VNum 0) 0%Z
         | None => DNone
         end
+    | ERecv r ops _ _ _ =>
+        match get_rep St call J s r with
+        | Some x =>
+            match receive_ops St call J k_remote (r_dt x) ops with
+            | ROk _ _ _ d' => DDeliver 0 (k_view (d_snap d')) (k_size (d_snap d'))
+            | RError _ _ _ d' => DDeliver 1 (k_view (d_snap d')) (k_size (d_snap d'))
+            | RPanic _ _ _ => DDeliver 2 (VNum 0) 0%Z
+            | RDiverge _ _ _ => DDeliver 3 (VNum 0) 0%Z
+            end
+        | None => DNone
+        end
     end.
   Fixpoint run_diag (s : sysT) (es : list ev) (i : nat) : option (nat * ev * diag) :=
     match es with
@@ -136,6 +158,7 @@ Arguments ELocal {call}.
 Arguments ETx {call}.
 Arguments EPush {call}.
 Arguments EDeliver {call}.
+Arguments ERecv {call}.
 Arguments mkHist {call}.
 
 (* ---------- instances ---------- *)
